@@ -411,6 +411,13 @@ pub trait Machine: 'static {
     /// value of record(s) in the accumulation space, in the element type (widened to f64), and
     /// its float-rounded square in the element type
     fn tspace(a: Bits, b: Bits) -> (f64, f64);
+    /// C05: the arithmetic machine over the transformed records that this machine must refine
+    /// (Self for machines without a transform)
+    type Twin: Machine;
+    /// the record the twin receives for record `a` (ln x resp. 1/x computed in the element type)
+    fn twin_record(a: Bits) -> Bits {
+        a
+    }
 }
 
 fn vecf<F: Fl>(r: &[Bits]) -> Vec<F> {
@@ -547,6 +554,7 @@ impl<F: Fl> Machine for MKahan<F> {
         let x = F::from_bits64(a);
         (x.w(), (x * x).w())
     }
+    type Twin = Self;
 }
 
 // ------------------------------------------------------------------------------------------
@@ -719,6 +727,12 @@ macro_rules! mean_machine {
                 let x = F::from_bits64(a);
                 let t: F = $tfn(x);
                 (t.w(), (t * t).w())
+            }
+            type Twin = MArith<F>;
+            fn twin_record(a: Bits) -> Bits {
+                let x = F::from_bits64(a);
+                let t: F = $tfn(x);
+                t.bits64()
             }
         }
     };
@@ -913,6 +927,7 @@ impl<F: Fl> Machine for MPaired<F> {
         let t = F::from_bits64(a) - F::from_bits64(b);
         (t.w(), (t * t).w())
     }
+    type Twin = Self;
 }
 
 // ------------------------------------------------------------------------------------------
@@ -1123,6 +1138,7 @@ impl<F: Fl> Machine for MUnpaired<F> {
         let x = F::from_bits64(a);
         (x.w(), (x * x).w())
     }
+    type Twin = Self;
 }
 
 // ------------------------------------------------------------------------------------------
@@ -1285,6 +1301,7 @@ impl Machine for MProp {
     fn tspace(a: Bits, _b: Bits) -> (f64, f64) {
         (a as f64, a as f64)
     }
+    type Twin = Self;
 }
 
 // ------------------------------------------------------------------------------------------
@@ -1397,6 +1414,7 @@ impl Machine for MQuant {
     fn tspace(_a: Bits, _b: Bits) -> (f64, f64) {
         (1.0, 1.0)
     }
+    type Twin = Self;
 }
 
 /// Dispatch a generic function over every machine kind by name.
